@@ -107,6 +107,9 @@ def replay(cases):
                     if ids(other) != list(range(n + 1, 2 * n + 1)):
                         viol.append(("concat", "second operand modified", op))
                     if n:
+                        twice = src + src               # aliasing: the same object on both sides
+                        if ids(twice) != list(range(1, n + 1)) * 2 or ids(src) != list(range(1, n + 1)):
+                            viol.append(("concat/self", "t + t on timestamps %s: observations %s" % (T, ids(twice)), {"T": T, "op": op}))
                         for msg in concat_tables(T, n)[:2]:
                             viol.append(("concat/feature-tables", "+ on timestamps %s: %s" % (T, msg), {"T": T, "op": op}))
                 else:
